@@ -22,7 +22,7 @@ RULE = ("F: (structure, swept field, value) triples, other fields drawn boundary
 ASSUMPTIONS = ["vf/ref/wire.py transcribes EN 302 636-4-1 V1.4.1 clause 9 and EN 302 636-5-1 clause 7 (self-checked)",
                "decoders are compared only on images a conformant encoder can produce (reserved = 0, enumerations in range)",
                "secured envelopes are out of scope here (C05 decodes them)"]
-REQUIRED_COUNTERS = ["F.encode_compared", "F.decode_compared", "P.packets_compared"]
+REQUIRED_COUNTERS = ["F.encode_compared", "F.decode_compared", "P.packets_compared", "P.unnamed_station_type_frame_refused"]
 
 I32 = (-(1 << 31), -(1 << 31) + 1, -900000000, -1, 0, 1, 900000000, 1800000000, (1 << 31) - 1)
 U32 = (0, 1, (1 << 31) - 1, 1 << 31, (1 << 31) + 1, (1 << 32) - 2, (1 << 32) - 1)
